@@ -223,6 +223,10 @@ def rule_r1(ctx: Ctx) -> None:
             ctx.accept("C02.R1", cls.fullname, SKIP[cls.fullname])
             continue
         gen, val = prog.lookup_method(cls, "generate"), prog.lookup_method(cls, "validate")   # inherited ones count
+        if (gen is None or val is None or is_stub(gen.node) or is_stub(val.node)) and prog.subclasses(cls.fullname) \
+                and all((g_ := prog.lookup_method(k_, "generate")) is not None and not is_stub(g_.node) and (v_ := prog.lookup_method(k_, "validate")) is not None
+                        and not is_stub(v_.node) for k_ in prog.subclasses(cls.fullname)):
+            continue      # a shared base of refinements that leaves generate / validate to its subclasses: decided once per concrete subclass
         if gen is None or val is None or is_stub(gen.node) or is_stub(val.node):
             ctx.ob("C02.R1", gen or val, (gen or val).node if (gen or val) else None, f"{cls.name}: generate and validate present",
                    None, "generate/validate missing", module=cls.module.relpath)
